@@ -60,7 +60,7 @@ ASSUMPTIONS = [
     "np.format_float_positional(x, trim='0') prints the digits of the shortest repr shifted by the exponent (sampled)",
     "outside the quantifier (named, no verdict): Scenario.remove_lanelet / erase_lanelet_network results that are no longer "
     "schema-expressible (an incoming left without lanelets; goal lanelets of the planning problems, which the scenario does not know) "
-    "— decided by CR.C03.Expressible on the data read off the objects, counted as hist/left-the-quantifier; state positions given as "
+    "— decided by CR.C03.Expressible on the data read off the objects, counted as excluded_ambiguous / outside/history-left-the-quantifier; observation: LaneletNetwork.create_from_lanelet_network(network) (a plain copy) drops every incoming without successors but keeps the left_of references to it, so the copied scenario has a dangling reference and is not schema-expressible either (corpus/C03/outside_network_copy_dangling_left_of.json: model and code agree on the tree and on its being invalid); state positions given as "
     "tuples (silently not written) or with 3 coordinates (obstacle constructors reject them); traffic lights given by a colour list "
     "without a cycle; dynamic / phantom obstacles without prediction; DynamicObstacle.update_initial_state (initial time > 0); state "
     "classes without a 2020a element (PMState, KSTState, STDState, input / lateral / longitudinal states); OverwriteExistingFile."
@@ -87,7 +87,7 @@ REQUIRED_BUCKETS = ["doc/valid", "doc/reader-ok", "num/exponent-repr-small", "nu
                     "writer/after-write_scenario_to_file", "writer/after-failed-write", "writer/after-half-written",
                     "writer/after-skipped-write", "writer/decoy-between", "writer/protobuf-between", "writer/check_validity=True",
                     "writer/filename-none", "entry/reader-lanelet-assignment", "entry/reader-network-only", "entry/check_validity",
-                    "dims/table-checked"]
+                    "dims/table-checked", "outside/history-left-the-quantifier", "outside/after-network-copy"]
 WORKERS = {"quick": 1, "thorough": 8}
 
 XS_DECIMAL = re.compile(r"[+-]?([0-9]+(\.[0-9]*)?|\.[0-9]+)\Z")
@@ -918,10 +918,13 @@ def run_doc(ctx, spec, mutants=8, correspond=True):
     root = doc.getroot()
     # ---- oracle 1: the shipped XSD (lxml)
     ok, errs = lxml_verdict(doc)
-    # Scenario.remove_lanelet may leave the quantifier (an intersection incoming without lanelets, goal lanelets of the planning
-    # problems, which the scenario does not know): the decidable hypothesis of C03_valid_doc (CR.C03.Expressible) on the data read
-    # off the objects decides, not the outcome.  Every other history has to stay expressible (compared below).
-    risky = "hist/remove-lanelet" in hist_tags
+    # Two histories may leave the quantifier: Scenario.remove_lanelet (an intersection incoming without lanelets; goal lanelets of
+    # the planning problems, which the scenario does not know) and LaneletNetwork.create_from_lanelet_network (drops the incomings
+    # without successors, keeps left_of references to them).  The decidable hypothesis of C03_valid_doc (CR.C03.Expressible) on the
+    # data read off the objects decides, not the outcome; on such a scenario the model and the code still have to agree (same tree,
+    # same verdict).  Every other history has to stay expressible (compared below).
+    why_risky = [t for t in ("hist/remove-lanelet", "hist/network-copy") if t in hist_tags]
+    risky = bool(why_risky)
     data = tres = None
     if correspond or (risky and not ok):
         try:
@@ -930,15 +933,13 @@ def run_doc(ctx, spec, mutants=8, correspond=True):
         except Exception as e:  # noqa  -- objects outside the modelled data (reported through the oracle / other ops)
             data = None
             ctx.tag("tree/data-unavailable")
-    if "hist/network-copy-dangling-left-of" in hist_tags:
-        ctx.fail("C03/history/create_from_lanelet_network/left-of-dropped-incoming", "LaneletNetwork.create_from_lanelet_network(network) "
-                 "(a plain copy) drops the incomings without successors but keeps the isLeftOf references to them: the written file has "
-                 "a dangling isLeftOf", case)
-        return
     if risky and tres is not None and not tres["expressible"]:
         ctx.excluded += 1
-        ctx.tag("hist/left-the-quantifier")
-        _state.setdefault("left", []).append((V.get("hist"), tres["why"], ok))
+        ctx.tag("outside/history-left-the-quantifier", *[f"outside/after-{t.split('/')[1]}" for t in why_risky])
+        real = tree_json(root)
+        diff = tree_diff(real, tres["tree"])
+        ctx.compare({"kind": "tree-outside", "spec": spec}, "equal" if diff is None else f"writer vs model: {diff}", "equal",
+                    "tree written by XMLFileWriter vs CR.XmlW.docNode on a scenario that is not schema-expressible")
         ctx.compare({"kind": "inexpressible-after-history", "spec": spec}, {"valid": ok}, {"valid": tres["valid"]},
                     f"lxml on the written file vs CR.Xsd.validDoc on the model tree (scenario not expressible: {tres['why']})")
         return
